@@ -412,6 +412,9 @@ class Broker(object):
             tags = [t for t in ch.unacked if delivery_tag == 0 or t <= delivery_tag]
         else:
             tags = [delivery_tag]
+        if multiple:
+            # the frame as sent: one Basic.Ack that settles every outstanding delivery up to the tag (all for tag 0)
+            self.op("ack_frame", ch.node, ch=ch.number, tag=delivery_tag, multiple=True, covered=len(tags))
         for t in tags:
             ent = ch.unacked.pop(t, None)
             if ent is None:
